@@ -337,6 +337,10 @@ def _edge(rng, W, d):
     k = d["k"]
     if k in ("ineq", "ineq_rev", "ineq_world"):
         v = rng.choice(["zero", "py_int", "np_float32", "np_int64", "np_float64"])
+        if k == "ineq_world" or W.kinds.get(d["att"]) in ("world", "derived", "linked"):
+            # integer-typed bounds round onto whole numbers, which computed attributes of tidy transformations take
+            # exactly in one evaluation order and 1 ulp off in another (rounding tie, see pick_value): float types only
+            v = rng.choice(["np_float32", "np_float64"])
         if v == "zero":
             d["val"] = 0
             d["val_type"] = "py_int"
@@ -344,7 +348,14 @@ def _edge(rng, W, d):
             d["val_type"] = v
     elif k == "range":
         v = rng.choice(["degenerate", "reversed", "infinite", "nan", "np_scalars", "zero_zero"])
-        if v == "degenerate":
+        computed = W.kinds.get(d["att"]) in ("world", "derived", "linked")
+        if v == "zero_zero" and computed:
+            v = "degenerate"
+        if v == "degenerate" and computed:
+            # an exact value of a computed attribute is a rounding tie (see pick_value): the degenerate interval of a
+            # computed attribute lies between values, not on one
+            d["lo"] = d["hi"] = pick_value(rng, W, d["att"])
+        elif v == "degenerate":
             a = _finite_values(W, d["att"])
             d["lo"] = d["hi"] = float(a[rng.randrange(a.size)])
         elif v == "reversed":
@@ -354,7 +365,7 @@ def _edge(rng, W, d):
         elif v == "nan":
             d[rng.choice(["lo", "hi"])] = float("nan")
         elif v == "np_scalars":
-            d["lo_type"], d["hi_type"] = "np_float64", rng.choice(["np_float32", "np_int64"])
+            d["lo_type"], d["hi_type"] = "np_float64", ("np_float32" if computed else rng.choice(["np_float32", "np_int64"]))
         else:
             d["lo"], d["hi"], d["lo_type"], d["hi_type"] = 0, 0, "py_int", "py_int"
     elif k == "multirange":
